@@ -33,63 +33,99 @@ fn sample_bits<const D: usize>(g: &SampleGenerator<D>, pt: &[f64], ne: usize, me
     }
 }
 
+fn bubble(w: f64) -> (Graph, Vec<Vec<isize>>, usize) {
+    (
+        Graph {
+            edges: (0..2).map(|i| Edge { vertices: (0, 1), is_massive: i == 0, weight: w }).collect(),
+            externals: vec![0, 1],
+        },
+        vec![vec![1], vec![1]],
+        2,
+    )
+}
+
+fn sunrise() -> (Graph, Vec<Vec<isize>>, usize) {
+    (
+        Graph {
+            edges: (0..3).map(|i| Edge { vertices: (0, 1), is_massive: i == 0, weight: 1.1 }).collect(),
+            externals: vec![0, 1],
+        },
+        vec![vec![1, 0], vec![0, 1], vec![1, 1]],
+        3,
+    )
+}
+
 fn main() {
     let case: u64 = std::env::args().nth(1).and_then(|s| s.parse().ok()).unwrap_or(0);
     let mut rs = 0x9e3779b97f4a7c15u64 ^ case.wrapping_mul(0xabcdef12345);
-    // small graphs keep interpretation fast: massive bubble (1 loop) or sunrise (2 loops)
-    let sunrise = case % 2 == 1;
-    let (graph, sig, ne): (Graph, Vec<Vec<isize>>, usize) = if sunrise {
-        (
-            Graph {
-                edges: (0..3).map(|i| Edge { vertices: (0, 1), is_massive: i == 0, weight: 1.1 }).collect(),
-                externals: vec![0, 1],
-            },
-            vec![vec![1, 0], vec![0, 1], vec![1, 1]],
-            3,
-        )
-    } else {
-        (
-            Graph {
-                edges: (0..2).map(|i| Edge { vertices: (0, 1), is_massive: i == 0, weight: 0.9 }).collect(),
-                externals: vec![0, 1],
-            },
-            vec![vec![1], vec![1]],
-            2,
-        )
-    };
-    let g: Arc<SampleGenerator<3>> = Arc::new(graph.build_sampler::<3>(sig).expect("seed graph accepted"));
-    let dim = g.get_dimension();
+    // case % 3: 0 = callers share one 1-loop sampler, 1 = callers share one 2-loop
+    // sampler, 2 = callers use two DIFFERENT samplers (different degree of
+    // divergence) at the same time
+    let mut samplers: Vec<(Arc<SampleGenerator<3>>, usize)> = Vec::new();
+    match case % 3 {
+        0 => {
+            let (g, sig, ne) = bubble(0.9);
+            samplers.push((Arc::new(g.build_sampler::<3>(sig).expect("seed graph accepted")), ne));
+        }
+        1 => {
+            let (g, sig, ne) = sunrise();
+            samplers.push((Arc::new(g.build_sampler::<3>(sig).expect("seed graph accepted")), ne));
+        }
+        _ => {
+            for w in [0.9, 1.3] {
+                let (g, sig, ne) = bubble(w);
+                samplers.push((Arc::new(g.build_sampler::<3>(sig).expect("seed graph accepted")), ne));
+            }
+        }
+    }
     let npts = 3;
-    let points: Vec<Vec<f64>> = (0..npts).map(|_| (0..dim).map(|_| lcg(&mut rs)).collect()).collect();
-    let reference: Vec<Vec<u64>> = points.iter().enumerate().map(|(i, p)| sample_bits(&g, p, ne, i % 2 == 0)).collect();
-    let nthreads = 2 + (case % 2) as usize;
+    // per sampler: points and sequential reference
+    let mut points: Vec<Vec<Vec<f64>>> = Vec::new();
+    let mut reference: Vec<Vec<Vec<u64>>> = Vec::new();
+    for (g, ne) in &samplers {
+        let dim = g.get_dimension();
+        let pts: Vec<Vec<f64>> = (0..npts).map(|_| (0..dim).map(|_| lcg(&mut rs)).collect()).collect();
+        reference.push(pts.iter().enumerate().map(|(i, p)| sample_bits(g, p, *ne, i % 2 == 0)).collect());
+        points.push(pts);
+    }
+    // the two-sampler cases run more callers and more calls: the windows that
+    // matter there are a few instructions wide
+    let two = samplers.len() > 1;
+    let light = case % 3 == 1; // the 2-loop sunrise is ~4x as expensive to interpret
+    let nthreads = if light { 2 + ((case / 3) % 2) as usize } else { 3 + ((case / 3) % 2) as usize };
+    let ncalls = if light { npts } else { 6 };
+    let _ = two;
     let mut hs = Vec::new();
     for t in 0..nthreads {
-        let g = g.clone();
+        let samplers = samplers.clone();
         let points = points.clone();
         hs.push(std::thread::spawn(move || {
             let mut out = Vec::new();
-            for k in 0..points.len() {
-                let i = (k + t) % points.len();
-                out.push((i, sample_bits(&g, &points[i], ne, i % 2 == 0)));
+            for k in 0..ncalls {
+                let si = (t + k / 2) % samplers.len();
+                let i = (k + t) % npts;
+                let (g, ne) = &samplers[si];
+                out.push((si, i, sample_bits(g, &points[si][i], *ne, i % 2 == 0)));
             }
             out
         }));
     }
     let mut bad = 0;
     for (t, h) in hs.into_iter().enumerate() {
-        for (i, bits) in h.join().expect("caller thread panicked") {
-            if bits != reference[i] {
-                eprintln!("MIRI-LEG MISMATCH case={} thread={} point={}: {:?} vs reference {:?}", case, t, i, bits, reference[i]);
+        for (si, i, bits) in h.join().expect("caller thread panicked") {
+            if bits != reference[si][i] {
+                eprintln!("MIRI-LEG MISMATCH case={} thread={} sampler={} point={}", case, t, si, i);
                 bad += 1;
             }
         }
     }
-    // the sampler must still produce the reference afterwards
-    for (i, p) in points.iter().enumerate() {
-        if sample_bits(&g, p, ne, i % 2 == 0) != reference[i] {
-            eprintln!("MIRI-LEG MISMATCH case={} after the threads: point {}", case, i);
-            bad += 1;
+    // the samplers must still produce the reference afterwards
+    for (si, (g, ne)) in samplers.iter().enumerate() {
+        for (i, p) in points[si].iter().enumerate() {
+            if sample_bits(g, p, *ne, i % 2 == 0) != reference[si][i] {
+                eprintln!("MIRI-LEG MISMATCH case={} after the threads: sampler {} point {}", case, si, i);
+                bad += 1;
+            }
         }
     }
     if bad > 0 {
